@@ -243,6 +243,42 @@ def simulated(chk, tagname, budget=1):
                              dict(oracle='simulate', args=desc, violated=bad))
 
 
+def roi_histories(chk, tagname):
+    """ROI models built one after the other in the same process and sharing component objects (a source first on its own, then together with
+    a background; two models summed): whichever is simulated and written, every SRC_ID of its file is listed in its ROITABLE, with its name"""
+    import simdrive
+    from astropy.io import fits
+    from ixpeobssim.srcmodel.roi import xROIModel, xPointSource
+    from ixpeobssim.srcmodel.bkg import xTemplateInstrumentalBkg
+    from ixpeobssim.srcmodel.spectrum import power_law
+    from ixpeobssim.srcmodel.polarization import constant
+    g = rng(tagname)
+    ra, dec = 30., 45.
+    src = xPointSource('the source', ra, dec, power_law(5., 2.), constant(0.2), constant(0.3))
+    src2 = xPointSource('another source', ra + 0.01, dec, power_law(3., 2.), constant(0.), constant(0.))
+    bkg = xTemplateInstrumentalBkg()
+    roi_src = xROIModel(ra, dec, src)
+    roi_both = xROIModel(ra, dec, bkg, src)              # the same component object, now second in another model
+    roi_sum = xROIModel(ra, dec, src2) + roi_src
+    for label, roi in (('the source alone, built before a model that holds the same component second', roi_src), ('background + source', roi_both), ('sum of two models', roi_sum)):
+        desc = dict(op='simulate-roi-history', model=label, du=int(g.integers(1, 4)), seed=int(g.integers(1, 10 ** 6)))
+        chk.case(desc, nontrivial=True)
+        with scratch() as d:
+            path = os.path.join(d, 'sim.fits')
+            try:
+                simdrive.simulate(simdrive.config_path('toy_point_source.py'), path, gtis=[(0., 300.)], du_id=desc['du'], seed=desc['seed'], duration=300., roi_model=roi)
+            except BaseException as e:
+                chk.fail('impl', 'simulation of the model "%s" did not complete: %s: %s' % (label, type(e).__name__, e), dict(oracle='roi-history', args=desc, error=str(e)))
+                continue
+            with fits.open(path) as h:
+                ids = sorted(set(int(x) for x in h['MONTE_CARLO'].data['SRC_ID']))
+                table = {int(i): str(n_).strip() for i, n_ in zip(h['ROITABLE'].data['SRCID'], h['ROITABLE'].data['SRCNAME'])}
+        names = {int(c.identifier): c.name for c in roi.values()}
+        if any(i not in table for i in ids) or any(table.get(i) != (names.get(i) or '')[:20].strip() for i in ids):
+            chk.fail('impl', 'model "%s": the file holds SRC_ID %s, its ROITABLE lists %s, the components of the model are %s' % (label, ids, table, names),
+                     dict(oracle='roi-history', args=desc, src_ids=ids, roitable=table))
+
+
 def float_regime(chk, tagname, budget=1):
     """the dead-time veto on realistic (non-dyadic) numbers: mission times of a few 1e8 s, where a double resolves 3-6e-8 s, the default
     1.08 ms dead time, kHz rates. The statement is evaluated in the arithmetic the file holds: the difference of two nearby doubles is exact,
@@ -286,6 +322,7 @@ def main(chk):
     n = 60 if chk.tier == 'quick' else 1500
     run_cases(chk, n, 'C04-corr')
     simulated(chk, 'C04-sim')
+    roi_histories(chk, 'C04-roi')
     float_regime(chk, 'C04-float')
     return chk.finish(level='proof', trusted=TRUSTED, search=lambda k: run_cases(chk, n, 'C04-search', k))
 
